@@ -3,7 +3,8 @@
 # expect, termination; the kept chunks are untouched, the trailing chunks lose only their stable halves (both become empty), every
 # produced migration goes from a half of a trailing chunk to a half of a kept chunk with valid indices and the given epoch.
 # every slot a migration carries was owned by the source half and is handed out at most once (taken_once).
-# NOT proved here: that every slot of a trailing chunk is carried by SOME migration (needs the global counting argument).
+# and - given that the kept masters lack exactly what the trailing chunks hold (true when all 16384 slots are owned: lemma_balanced_gives_count) -
+# every slot of a trailing half is carried by a migration out of it (all_moved): nothing is lost.
 import re
 import vlib
 from units import broker_common, range_list
@@ -74,12 +75,13 @@ def build(U):
     f.apply_overlay('remove_slots_down')
     U.add_fn(f)
     U.add('}\n} // verus!\nfn main() {}\n')
-    U.trust('precondition (the states migrate_slots_to_scale_down hands over): every half owns a well-formed range list of at most 16384 slots, 1 <= new_chunk_num < number of chunks <= 8192, and no kept master holds more than its final share',
+    U.trust('precondition (the states migrate_slots_to_scale_down hands over): every half owns a well-formed range list of at most 16384 slots, 1 <= new_chunk_num < number of chunks <= 8192, no kept master holds more than its final share, and the kept masters lack exactly what the trailing chunks hold (follows from: all 16384 slots owned, lemma_balanced_gives_count)',
             'RangeList::new / get_slots_num through their contracts proved in units range_list / remove_slots; D3, D6, D20, R6')
 
-RLIMIT = 80
+RLIMIT = 120
 
 MUST_FAIL = '''
 proof fn must_fail_remove_slots_down_room(cs: Seq<ChunkStore>) requires cs.len() > 1 ensures dst_have_room(cs, 1, 8192, 0) { }
+proof fn must_fail_all_moved_trivial(o: Seq<Range>, ms: Seq<MigrationSlots>) requires o.len() > 0 ensures all_moved(o, ms, 0, 0) { reveal(all_moved); }
 proof fn must_fail_taken_once_trivial(o: Seq<Range>, ms: Seq<MigrationSlots>) requires ms.len() > 0 ensures taken_once(o, ms, 0, 0) { reveal(taken_once); }
 '''
